@@ -585,6 +585,52 @@ func freedCapacity(c *ev.Check) {
 	}
 }
 
+// twoUpstreams: a dead instance that holds quota on TWO upstreams, and whose conditions reach the periodic pass for
+// unknown clients (its last reports land after the time-out pass has forgotten it): one such pass forgets it on both.
+func twoUpstreams(c *ev.Check) {
+	vsched.InlineGo = true
+	vtime.SetVirtual(time.Unix(1700000000, 0))
+	rig := limrig.New(1, "local")
+	rig.Gain(0)
+	ups := []string{"up-one", "up-two"}
+	for _, u := range ups {
+		if err := rig.ApplyCluster(limrig.MIFCluster(u, "a", proxyv1alpha1.GlobalAllocateLimit, 1, 40)); err != nil {
+			c.EngineError("two-upstreams: " + err.Error())
+			return
+		}
+	}
+	report := func(inst, u string, hb bool) {
+		if hb {
+			_ = rig.L.Heartbeat(inst)
+		}
+		rep := limrig.Report(u, inst, "a", proxyv1alpha1.MaxRequestsInflight, proxyv1alpha1.GlobalAllocateLimit, 0, 0, 0, 150)
+		rep.Spec.LimitItemConfigurations[0].LimitItemDetail = proxyv1alpha1.LimitItemDetail{}
+		if _, err := rig.L.UpdateRateLimitConditionStatus(u, rep); err != nil {
+			c.EngineError("two-upstreams: report: " + err.Error())
+		}
+	}
+	for _, inst := range []string{"gwA", "gwB"} {
+		for _, u := range ups {
+			report(inst, u, true)
+		}
+	}
+	rig.H.SetHeartbeat("gwA", vtime.Now().Add(-time.Hour))
+	rig.H.CleanupTimeoutClient()
+	for _, u := range ups { // the dying instance's last reports arrive after it was forgotten (no heartbeat with them)
+		report("gwA", u, false)
+	}
+	rig.H.CleanupUnknownCondition()
+	c.Add("two_upstream_scenarios", 1)
+	for _, u := range ups {
+		if cd, err := rig.L.GetRateLimitCondition(u, limrig.ConditionName(u, "gwA")); err == nil && cd != nil {
+			c.Violation("two-upstreams/dead-condition-kept", fmt.Sprintf("instance gwA holds quota on two upstreams, went silent and was forgotten by the time-out pass; its last reports landed afterwards; one pass for unknown clients later its condition for %s is still on record", u), map[string]interface{}{"upstream": u})
+		}
+		if cd, err := rig.L.GetRateLimitCondition(u, limrig.ConditionName(u, "gwB")); err != nil || cd == nil {
+			c.Violation("two-upstreams/live-instance-touched", fmt.Sprintf("the live instance gwB lost its condition for %s", u), map[string]interface{}{"upstream": u})
+		}
+	}
+}
+
 func (s *sys) cleanedBoth(string) bool { return false }
 
 // ------------------------------------------------------------------ engine A: the cleanup goroutine vs requests
@@ -711,6 +757,7 @@ func main() {
 	tasks = append(tasks, xstate.Tasks(c, specStray(), c.Pick(5, 6), 17)...)
 	tasks = append(tasks, ev.Task{Name: "heartbeat-timings", Run: func() { heartbeatTimings(c) }})
 	tasks = append(tasks, ev.Task{Name: "freed-capacity", Run: func() { freedCapacity(c) }})
+	tasks = append(tasks, ev.Task{Name: "two-upstreams", Run: func() { twoUpstreams(c) }})
 	tasks = append(tasks, xstate.Tasks(c, specStrategyEdit(), c.Pick(5, 6), 16)...)
 	bounds := []int{0, 1, 2}
 	if c.Thorough() {
